@@ -883,3 +883,52 @@ func corpusRound5(r *core.Run) {
 		w.Close()
 	}
 }
+
+// ---- fail-open witnesses (known findings): inputs of a supported shape on which the real proxy forwards the
+// plaintext of a protected column; each has its own decidable class, any other plaintext-at-database is a violation ----
+
+func corpusFailOpen(r *core.Run) {
+	rd := core.NewRand(646464)
+	kv := env.NewKV(rd, 1, 1)
+	ks := &env.TKS{Clients: map[string]*env.KV{"alice": kv}} // "bob" has no keys
+	tabs := []fakepg.TableDef{
+		{Name: "t1", Cols: []fakepg.Column{{Name: "id", Type: fakepg.Int4}, {Name: "data", Type: fakepg.Bytea}, {Name: "note", Type: fakepg.Text}}},
+		{Name: "t2", Cols: []fakepg.Column{{Name: "id", Type: fakepg.Int4}, {Name: "data", Type: fakepg.Bytea}, {Name: "note", Type: fakepg.Text}}},
+	}
+	run := func(key, client, class, what string, marker string, do func(a *Sess)) {
+		r.Begin("corpus-fail-open-"+key, true, "case:corpus", "case:fail-open")
+		w, err := NewWorld(corpusYAML, ks, tabs, rd.Bytes(1<<14))
+		if err != nil {
+			panic("harness: " + err.Error())
+		}
+		defer w.Close()
+		a, err := w.Open(client)
+		if err != nil {
+			panic("harness: " + err.Error())
+		}
+		do(a)
+		if bytes.Contains(w.DB.In.Bytes(), []byte(marker)) {
+			r.Fail(class, what+": the plaintext "+marker+" of the protected column t1.data reached the database")
+		}
+	}
+	run("multi-statement", "alice", "plaintext-at-database:multi-statement-query",
+		"simple Query with two INSERTs (only the first statement is analysed)", "FAILOPENMARK01", func(a *Sess) {
+			a.C.Simple("insert into t1 (id, data) values (31, 'first'); insert into t1 (id, data) values (32, 'FAILOPENMARK01')")
+		})
+	run("invalid-hex-literal", "alice", "plaintext-at-database:invalid-hex-literal",
+		`literal '\xZZ…' (\x + invalid hex) for a protected column without data type: the coder returns an error, the statement is forwarded as received`, "FAILOPENMARK02", func(a *Sess) {
+			a.C.Simple(`insert into t1 (id, data) values (33, '\xZZFAILOPENMARK02')`)
+		})
+	run("invalid-hex-parameter", "alice", "plaintext-at-database:invalid-hex-literal",
+		`text-format parameter '\xZZ…' (\x + invalid hex) bound to a protected column: the Bind is forwarded as received`, "FAILOPENMARK03", func(a *Sess) {
+			a.C.Extended(fakepg.Ext{Parse: true, Name: "s", SQL: "insert into t1 (id, data) values ($1, $2)", Bind: true, Params: [][]byte{[]byte("34"), []byte(`\xZZFAILOPENMARK03`)}, Execute: true})
+		})
+	run("non-utf8-statement", "alice", "plaintext-at-database:non-utf8-statement",
+		"statement text with a byte that is not valid UTF-8 (pg_query's parse tree is rejected, the statement is not analysed)", "FAILOPENMARK04", func(a *Sess) {
+			a.C.Simple("insert into t1 (id, data, note) values (35, 'FAILOPENMARK04', 'bad\xff')")
+		})
+	run("no-key-for-client", "bob", "plaintext-at-database:no-key-for-client",
+		"INSERT by a client id for which the keystore returns no usable key (error other than not-exist): the chain fails, the statement is forwarded as received", "FAILOPENMARK05", func(a *Sess) {
+			a.C.Simple("insert into t1 (id, data) values (36, 'FAILOPENMARK05')")
+		})
+}
